@@ -499,6 +499,16 @@ class StreamableHTTPTransport(Transport):
             ):
                 self._unanswered_id = None
 
+            # A JSON object that is neither a request/notification (method) nor a
+            # response (result or error) is not a JSON-RPC message: do not deliver it
+            if (
+                message.method is None
+                and message.result is None
+                and message.error is None
+            ):
+                logger.debug(f"Ignoring non JSON-RPC object: {response_data}")
+                return
+
             # Check if this is a response (has id but no method)
             if hasattr(message, "id") and message.id and not hasattr(message, "method"):
                 # It's a response - check if someone is waiting for it
